@@ -84,6 +84,10 @@ def shards(tier):
     fam = axis_family(tier)
     for k, (kind, lab, mono) in enumerate(fam):
         out.append({"kind": kind, "labels": lab, "mono": mono, "embed": None, "var": D.VARIANTS[k % len(D.VARIANTS)]})
+    # narrow / unsigned label types on monotonic integer axes (negating or subtracting such labels wraps around)
+    for ldt in ("uint8", "uint64", "int8"):
+        for order in ("inc", "dec"):
+            out.append({"kind": "i", "labels": D.labels_of("i", 3, order), "mono": True, "embed": None, "var": "fresh", "ldt": ldt})
     # embedded: slice axis at every position of 2-D / 3-D arrays
     emb_axes = [f for f in fam if len(f[1]) in ((2, 3) if tier == "quick" else (2, 3, 4))]
     if tier == "quick":
@@ -101,6 +105,8 @@ def shards(tier):
 def _spec(sh):
     kind, lab = sh["kind"], sh["labels"]
     if sh["embed"] is None:
+        if sh.get("ldt"):
+            return dict(D.spec(["x"], [lab], [kind]), ldt=[sh["ldt"]])
         return D.spec(["x"], [lab], [kind], var=sh["var"] if len(lab) else "fresh")
     nd, p = sh["embed"]
     names = ["x", "y", "z"][:nd]
